@@ -24,6 +24,9 @@ pub enum Ev {
     Hard(u8),
     /// end of file now, even if data remains
     Eof,
+    /// re-entrancy: while producing this read, the reader itself hashes another (inner) stream
+    /// with the same helper on the same thread, then delivers up to k bytes
+    Nested(u32),
 }
 
 pub const HARD_KINDS: [ErrorKind; 6] =
@@ -47,11 +50,29 @@ pub struct ScriptReader<'a> {
     pub short_reads: u32,
     pub interrupts: u32,
     pub hard: Option<(ErrorKind, String)>,
+    /// what `Ev::Nested` runs (None: `Nested` behaves as `Deliver`)
+    pub nested: Option<&'a dyn Fn(u32) -> Result<(), String>>,
+    pub nested_calls: u32,
+    pub nested_failure: Option<String>,
 }
 
 impl<'a> ScriptReader<'a> {
     pub fn new(data: &'a [u8], events: &'a [Ev]) -> Self {
-        ScriptReader { data, pos: 0, events, next: 0, ended: false, calls_after_end: 0, reads_with_data: 0, short_reads: 0, interrupts: 0, hard: None }
+        ScriptReader {
+            data,
+            pos: 0,
+            events,
+            next: 0,
+            ended: false,
+            calls_after_end: 0,
+            reads_with_data: 0,
+            short_reads: 0,
+            interrupts: 0,
+            hard: None,
+            nested: None,
+            nested_calls: 0,
+            nested_failure: None,
+        }
     }
     pub fn delivered(&self) -> &'a [u8] {
         &self.data[..self.pos]
@@ -66,7 +87,20 @@ impl<'a> Read for ScriptReader<'a> {
         }
         let ev = if self.next < self.events.len() { self.events[self.next].clone() } else { Ev::Deliver(u32::MAX) };
         self.next += 1;
+        let ev = match ev {
+            Ev::Nested(k) => {
+                if let Some(f) = self.nested {
+                    self.nested_calls += 1;
+                    if let Err(m) = f(k) {
+                        self.nested_failure.get_or_insert(m);
+                    }
+                }
+                Ev::Deliver(k)
+            }
+            e => e,
+        };
         match ev {
+            Ev::Nested(_) => unreachable!(),
             Ev::Deliver(k) => {
                 let remaining = self.data.len() - self.pos;
                 if remaining == 0 || buf.is_empty() {
@@ -122,12 +156,37 @@ pub fn case_script(api: &dyn GlobalApi, va: &dyn VariantApi, s: &Script, st: &Ca
     // twice: variant-specific helper and (for Normal) the default-type helper
     let passes: &[bool] = if v.name == "Normal" { &[false, true] } else { &[false] };
     for &use_global in passes {
-        let mut rd = ScriptReader::new(&data, &s.events);
         let what = if use_global { "hash_stream" } else { "hash_stream_for" };
+        // the inner stream of `Ev::Nested`: hashed with the same helper from inside read()
+        let nested = |k: u32| -> Result<(), String> {
+            let len = if k >= (1 << 20) - 3 { (1usize << 20) + 77 } else { 60 + k as usize % 700 };
+            let inner = DataSpec { kind: Kind::Mixed, len, seed: k as u64 ^ 0x12E57ED, explicit: None }.render();
+            let evs = [Ev::Deliver(7), Ev::Interrupted, Ev::Deliver(u32::MAX)];
+            let mut ir = ScriptReader::new(&inner, &evs);
+            let r = if use_global { api.hash_stream_normal(&mut ir) } else { va.hash_stream(&mut ir) }.ok_or("stream helpers not compiled")?;
+            let got = match r {
+                Ok(h) => Ok(h),
+                Err(StreamErr::Gen(g)) => Err(g),
+                Err(StreamErr::Io(e)) => return Err(format!("{}: inner {} (called from inside read()) returned the I/O error {:?}", v.name, what, e.kind())),
+            };
+            let want = va.hash_buf(&inner).ok_or("hash_buf not compiled")?;
+            if !same(&got, &want) {
+                return Err(format!("{}: inner {} over {} bytes (called from inside read()) = {} but hash_buf = {}", v.name, what, inner.len(), show(&got), show(&want)));
+            }
+            Ok(())
+        };
+        let mut rd = ScriptReader::new(&data, &s.events);
+        rd.nested = Some(&nested);
         let r = catch(|| if use_global { api.hash_stream_normal(&mut rd) } else { va.hash_stream(&mut rd) })
             .map_err(|p| format!("{}: {} panicked: {}", v.name, what, p))?
             .ok_or("stream helpers not compiled")?;
         st.eval();
+        if let Some(m) = rd.nested_failure.take() {
+            return Err(m);
+        }
+        if rd.nested_calls > 0 {
+            st.class("script: reader hashes another stream inside read()");
+        }
         if rd.calls_after_end > 0 {
             // not demanded by the property (the result is judged below): recorded only
             st.class("observation: read() called again after end of file / hard error");
@@ -214,6 +273,7 @@ fn script_strategy(v: vmodel::Variant, big_weight: u32) -> impl Strategy<Value =
         3 => Just(Ev::Interrupted),
         1 => (0u8..6).prop_map(Ev::Hard),
         1 => Just(Ev::Eof),
+        1 => prop_oneof![4 => 1u32..=5000, 1 => Just(1u32 << 20)].prop_map(Ev::Nested),
     ];
     (data, vec(ev, 0..14)).prop_map(|(data, events)| Script { data, events })
 }
